@@ -1607,6 +1607,22 @@ def wrap_order(ctx, mir, stats):
             else:
                 incs.append(("bad", src))
     obs.append({"id": "wrap:seq-num-increment", "ok": len(incs) == 1 and incs[0][0] == "assign", "functions": [f.name], "detail": "seq_num advances by exactly 1 per sealed message" if len(incs) == 1 else "seq_num updates: %s" % [e[3] for e in incs], "where": f.name})
+    # every path that returns a token (not only the main one) has advanced the counter exactly once and called mac exactly once
+    lazy = []
+    for p in se.finished:
+        ret = _last_assign_to_ret(p) or ""
+        if not re.match(r"Result::<Vec<u8>, .*>::Ok\(", ret):
+            continue
+        n_inc = 0
+        for k, e in enumerate(p.events):
+            if e[0] == "assign" and e[2].strip() == "((*_1).4: u32)":
+                n_inc += 1
+        n_mac = len(calls_on(p.events, r"^mac$"))
+        if n_inc != 1 or n_mac != 1:
+            lazy.append((n_inc, n_mac, p.trace[-5:]))
+    obs.append({"id": "wrap:every-token-advances-seq-num", "ok": not lazy, "functions": [f.name], "where": f.name, "needs_native": True, "native": None if not lazy else SEAL_NATIVE,
+                "detail": "every path of gss_wrapex that returns a token has signed once and advanced seq_num once (also for an empty message)" if not lazy else
+                "a path of gss_wrapex returns a token with %d sequence-number updates and %d signatures: the next message reuses or skips a sequence number" % (lazy[0][0], lazy[0][1])})
     # trame![signature, encrypted_data] order
     if len(pushes) == 2:
         s0 = resolve_source(ev, pushes[0][0], pushes[0][1][4][1])
@@ -3730,11 +3746,20 @@ def _receive_loop_native(ctx):
     launch = _cut_fn(txt, r"fn launch_rdp_thread<[^>]*>\s*\(", "launch_rdp_thread")
     wait = _cut_fn(txt, r'#\[cfg\(any\(target_os = "linux", target_os = "macos"\)\)\]\s*fn wait_for_fd\(', "wait_for_fd")
     t = open(os.path.join(os.path.dirname(os.path.abspath(__file__)), "natives", "receive_end_modes.rs")).read()
-    t = t.replace("@WAIT@", wait.replace("\n", "\n    ")).replace("@LAUNCH@", launch.replace("\n", "\n    "))
+    t = t.replace("@WAIT@", wait.replace("\n", "\n    ")).replace("@LAUNCH@", _bin_consts_used(txt, launch) + "\n    " + launch.replace("\n", "\n    "))
     return {"test": "verif_replay_receive_loop", "features": ["libc"], "files": {
         "src/core/client.rs": t,
         "src/core/x224.rs": "\n#[cfg(test)]\npub fn verif_new_x224<S: Read + Write>(transport: tpkt::Client<S>) -> Client<S> { Client::new(transport, Protocols::ProtocolSSL) }\n",
         "src/core/global.rs": "\n#[cfg(test)]\nimpl Client { pub fn verif_enter_data_state(&mut self) { self.state = ClientState::Data; } }\n"}}
+
+
+def _bin_consts_used(txt, body):
+    """top-level `const NAME: T = ...;` items of the binary that the cut function mentions (APPLICATION_NAME is provided by the replay itself)"""
+    out = []
+    for m in re.finditer(r"^(?:pub )?const (\w+)\s*:[^=;]+=[^;]+;", txt, re.M):
+        if m.group(1) != "APPLICATION_NAME" and re.search(r"\b%s\b" % m.group(1), body):
+            out.append("#[allow(dead_code)]\n    " + m.group(0))
+    return "\n    ".join(out)
 
 
 def _tls_coalesced_native(ctx):
@@ -3743,7 +3768,7 @@ def _tls_coalesced_native(ctx):
     launch = _cut_fn(txt, r"fn launch_rdp_thread<[^>]*>\s*\(", "launch_rdp_thread")
     wait = _cut_fn(txt, r'#\[cfg\(any\(target_os = "linux", target_os = "macos"\)\)\]\s*fn wait_for_fd\(', "wait_for_fd")
     t = open(os.path.join(os.path.dirname(os.path.abspath(__file__)), "natives", "tls_coalesced.rs")).read()
-    t = t.replace("@WAIT@", wait.replace("\n", "\n    ")).replace("@LAUNCH@", launch.replace("\n", "\n    "))
+    t = t.replace("@WAIT@", wait.replace("\n", "\n    ")).replace("@LAUNCH@", _bin_consts_used(txt, launch) + "\n    " + launch.replace("\n", "\n    "))
     return {"test": "verif_replay_tls_coalesced", "features": ["libc"], "files": {
         "src/core/client.rs": t,
         "src/core/x224.rs": "\n#[cfg(test)]\npub fn verif_new_x224<S: Read + Write>(transport: tpkt::Client<S>) -> Client<S> { Client::new(transport, Protocols::ProtocolSSL) }\n",
@@ -3771,7 +3796,9 @@ def gui_receive_loop(ctx, mir, stats):
         native = _receive_loop_native(ctx)
     except Exception as e:
         native = None
-    se = SymExec(f, stats, loop_bound=0, max_paths=4000).run()
+    se = SymExec(f, stats, loop_bound=1, max_paths=20000)     # one revisit of inner loop heads: a bounded drain loop that gives up is seen leaving through its exhausted-iterator edge
+    se.stop_at = {L}                                            # ... but exactly one iteration of the outer (wait) loop
+    se.run()
     rdest = f.blocks[R].t["dest"]
     dkey = "discr(%s)" % rdest
     ekey_re = re.compile(r"^discr\(\(\(%s as Err\)\.0: [^)]*\)\)$" % re.escape(rdest))
@@ -4697,3 +4724,36 @@ def rc4_key_schedule(ctx, mir, stats):
     return [{"id": "rc4:key-schedule-shape", "ok": ok, "functions": [f.name], "where": f.name, "needs_native": True, "native": None if ok else RC4_NATIVE,
              "detail": "Rc4::new: identity permutation, then one pass i = 0..256 with j += S[i] + key[i mod len] (wrapping) and swap(S[i], S[j])" if ok else
              "Rc4::new is not the textbook key schedule (pass over 0..256: %d, other ranges %s, wrapping_add %d, swap %d, modulo %d)" % (len(ksa), other_loops[:2], len(adds), len(swaps), len(rems))}]
+
+
+# --------------------------------------------------------------------------
+# C04: TSCredentials / TSPasswordCreds always carry their mandatory fields (MS-CSSP 2.2.1.2)
+# --------------------------------------------------------------------------
+TS_CREDS_NATIVE = _native("verif_replay_ts_credentials_shape", "src/nla/cssp.rs", """
+        // reference DER for TSCredentials { credType [0] 1, credentials [1] OCTET STRING { TSPasswordCreds { [0] domain, [1] user, [2] password } } }
+        fn len(n: usize) -> Vec<u8> { if n < 128 { vec![n as u8] } else if n < 256 { vec![0x81, n as u8] } else { vec![0x82, (n >> 8) as u8, n as u8] } }
+        fn tlv(tag: u8, body: &[u8]) -> Vec<u8> { let mut v = vec![tag]; v.extend(len(body.len())); v.extend_from_slice(body); v }
+        for (d, u, p) in [(&b"domain"[..], &b"user"[..], &b"password"[..]), (&b""[..], &b""[..], &b""[..]), (&b"d"[..], &b"u"[..], &b""[..]), (&b""[..], &b"u"[..], &b"p"[..]), (&[0x41u8; 200][..], &[0x42u8; 130][..], &[0x43u8; 300][..])].iter() {
+            let mut inner = tlv(0xa0, &tlv(4, d)); inner.extend(tlv(0xa1, &tlv(4, u))); inner.extend(tlv(0xa2, &tlv(4, p)));
+            let creds = tlv(0x30, &inner);
+            let mut outer = tlv(0xa0, &[2, 1, 1]); outer.extend(tlv(0xa1, &tlv(4, &creds)));
+            assert_eq!(create_ts_credentials(d.to_vec(), u.to_vec(), p.to_vec()), tlv(0x30, &outer), "TSCredentials for ({} , {}, {}) byte lengths", d.len(), u.len(), p.len());
+        }""")
+
+
+def ts_credentials_shape(ctx, mir, stats):
+    f = find_fn(mir, r"^create_ts_credentials$")
+    se = SymExec(f, stats, loop_bound=0, max_paths=4000).run()
+    shapes = set()
+    for p in se.finished:
+        keys = []
+        for i, e in calls_on(p.events, r"IndexMap::<String, Box<dyn ASN1>>::insert$"):
+            m = re.search(r'const "(\w+)"', resolve_source(p.events, i, e[4][1], depth=6))
+            keys.append(m.group(1) if m else "?")
+        tags = [str(z3.simplify(e[3][0])) if e[3] and e[3][0] is not None else "?" for i, e in calls_on(p.events, r"yasna::Tag::context$|Tag::context$")]
+        shapes.add((tuple(keys), tuple(tags)))
+    want = (("domainName", "userName", "password", "credType", "credentials"), ("0", "1", "2", "0", "1"))
+    ok = shapes == {want}
+    return [{"id": "ts-credentials:mandatory-fields", "ok": ok, "functions": [f.name], "where": f.name, "needs_native": True, "native": None if ok else TS_CREDS_NATIVE,
+             "detail": "on every path TSPasswordCreds = { [0] domainName, [1] userName, [2] password } and TSCredentials = { [0] credType, [1] credentials }: no field depends on the values" if ok else
+             "create_ts_credentials builds %s: a mandatory field is conditional or the tags changed" % sorted(shapes)[:2]}]
